@@ -31,7 +31,7 @@ ASSUMPTIONS = ['with a swallowing host callback (attempt) only "no node passes t
                'the effect log sees host probe calls, writes to the names mapping and the mutating builtins; other in-place effects (x += list) surface through the names write that follows them']
 REAL = ['smartquery.*']
 STUB = ['host callbacks t / call / attempt']
-REACH_PROBES = ('abort_inside_lambda', 'abort_inside_hof', 'abort_after_effect', 'cross_eval_lambda_called',
+REACH_PROBES = ('nested_eval_reentry', 'abort_inside_lambda', 'abort_inside_hof', 'abort_after_effect', 'cross_eval_lambda_called',
                 'swallowing_host', 'default_budget_checked', 'kill_twin_compared', 'full_sweep')
 
 
@@ -40,7 +40,7 @@ def _world(r):
     for nm in r.sample(['a', 'b', 'c', 'x', 'y', 'z'], r.randint(1, 4)):
         names[nm] = gen.host_value_spec(r, 2, floats=False)
     names['L'] = [1, 2, 3]
-    return {'names': names, 'host_fns': ['t', 'call', 'attempt']}
+    return {'names': names, 'host_fns': ['t', 'call', 'attempt', 're']}
 
 
 def generate(seed, tier):
@@ -76,7 +76,11 @@ def generate(seed, tier):
                     st = ['call', 'map', [['name', 'L'], ['name', f]], 'plain']
                 else:
                     st = ['call', 'attempt' if drv == 'attempt' else 'call', [['name', f]] + args, 'plain']
-                prog[1].insert(ro.randrange(len(prog[1]) + 1), ['assign', 'r', st])
+                at = ro.randrange(len(prog[1]) + 1)
+                prog[1].insert(at, ['assign', 'r', st])
+                if ro.random() < 0.35:
+                    # a host callback re-enters the parser (nested eval) before the stored lambda is invoked
+                    prog[1].insert(ro.randrange(at + 1), ['call', 're', [], 'plain'])
         ops.append({'op': 'eval', 'prog': prog, 'style': gen.style(S['render']), 'kinds': sorted(g.kinds)})
         model.run(prog)
     return {'world': world, 'ops': ops, 'cross': cross}
@@ -86,6 +90,11 @@ def _pre_state(case):
     """Fresh world with the history prefix executed unbounded. Returns (parser, names)."""
     W = history.World(case['world'], with_model=False)
     names = RecDict(W.names)
+
+    def reenter(*a):
+        with monitors.suspended():
+            return W.parser.eval('[1, 2] | map(v => v + 1)', {}, max_ops_evaluated=50)
+    W.host.on_reenter = reenter
     for op in case['ops'][:-1]:
         real_eval(W.parser, lang.render(op['prog'], op.get('style', 0)), names, budget=10 ** 9)
     return W, names
@@ -123,7 +132,7 @@ def execute(case, ctx):
     op = case['ops'][-1]
     src = lang.render(op['prog'], op.get('style', 0))
     swallow = any(_has_attempt(o['prog']) for o in case['ops'])
-    twin, trec, tnames, _ = _run(case, src, budget=TWIN_BUDGET)
+    twin, trec, tnames, W0 = _run(case, src, budget=TWIN_BUDGET)
     K = trec.nodes
     if isinstance(twin.exc, RecursionError) or type(twin.exc).__name__ == 'OpsExecutionLimitExceededError' \
             or K >= TWIN_BUDGET or trec.gate_hit:
@@ -154,6 +163,9 @@ def execute(case, ctx):
         ctx.probe('cross_eval_lambda_called')     # a lambda defined by an earlier eval ran to completion in this one
     if swallow:
         ctx.probe('swallowing_host')
+    if W0.host.reentries:
+        ctx.fault('reentry', W0.host.reentries)
+        ctx.probe('nested_eval_reentry')
     # (a)/(d) charged == performed on the unbounded run
     charged = getattr(trec.state0, 'ops_evaluated', None)
     if clean and twin.kind == 'value' and isinstance(charged, int) and charged != K:
